@@ -587,22 +587,27 @@ func (l *Lexer) skipWhitespace() {
 }
 
 func (l *Lexer) skipComment() {
-	for !l.isEOF() {
-		if l.char != '-' || l.peekChar() != '-' {
-			l.readChar()
-			continue
-		}
+	l.readChar() // skip "-"
+	l.readChar() // skip "-"
 
-		l.readChar() // skip "-"
-		l.readChar() // skip "-"
+	for !l.isEOF() && !l.isCommentEnd() {
+		l.readChar()
+	}
 
-		if l.char == '}' || l.peekChar() == '}' {
-			break
-		}
+	// the comment is not closed, the input ends inside of it
+	if l.isEOF() {
+		return
 	}
 
 	l.isHTML = true
 
+	l.readChar() // skip "-"
+	l.readChar() // skip "-"
 	l.readChar() // skip "}"
 	l.readChar() // skip "}"
+}
+
+// isCommentEnd tells if the current character starts "--}}"
+func (l *Lexer) isCommentEnd() bool {
+	return strings.HasPrefix(l.input[l.pos:], "--}}")
 }
